@@ -300,7 +300,7 @@ impl<S: Syntax, D> ResolvedNode<S, D> {
 
     /// See [`SyntaxNode::new_root_with_resolver`].
     #[inline]
-    pub fn new_root_with_resolver(green: GreenNode, resolver: impl Resolver<TokenKey> + 'static) -> Self {
+    pub fn new_root_with_resolver(green: GreenNode, resolver: impl Resolver<TokenKey> + Send + Sync + 'static) -> Self {
         SyntaxNode::new_root_with_resolver(green, resolver)
     }
 
